@@ -299,6 +299,9 @@ class ExplorerScriptSsbCompiler:
     ) -> dict[str, ExplorerScriptMacro]:
         """Updates path information of all of the macros. See the field descriptions for more details"""
         for macro in macros.values():
+            if basefile_path is not None and macro.included__relative_path is not None:
+                # This macro was imported by the imported file itself, the paths were already set to that file.
+                continue
             macro.included__absolute_path = subfile_path
             if basefile_path is not None:
                 macro.included__relative_path = os.path.relpath(subfile_path, os.path.dirname(basefile_path))
